@@ -26,9 +26,12 @@ FRAGMENT = {
          'plus clients that come and go, 30% with specialised clients only (one or two event types each; NETWORK / NETWORK_ID / TTX_PAGE listeners come and go; in '
          'a third of these nobody ever listens to NETWORK / NETWORK_ID; 525-line runs keep one NETWORK listener); uncorrectable Hamming faults hit every protected '
          'byte of 8/30 format 1 (designation, initial page) and format 2 (designation, initial page, 13 PDC bytes) with equal probability; '
+         'half of the 625-line runs give the stations their own Teletext page header text (one per station, or three services shared by all), a fifth of the '
+         'pages are transmitted in magazine serial mode; '
          'non-trivial = at least 20 receptions and (at least one accepted NETWORK event or at least 5 evaluated events); distinct = distinct event-log hash',
  'fault_kinds': ['fault_vps_cni', 'fault_8301_cni', 'fault_8302_cni', 'fault_vps_pil', 'fault_8302_pil', 'fault_8301_time', 'fault_drop',
                  'fault_ham1', 'fault_ham2', 'fault_wss_word', 'fault_wss_parity', 'fault_gap', 'fault_retune', 'fault_handler_change', 'fault_8301_ham1', 'fault_8301_ham2', 'fault_8301_time_offset',
+                 'page_header_of_another_station', 'header_switch_network_blank', 'pages_serial_mode',
                  'fault_ham2_designation', 'fault_ham2_initial_page', 'fault_ham2_lci_luf_prf', 'fault_ham2_cni_byte', 'fault_ham2_other_pdc_byte',
                  'fault_xds_deviate', 'fault_xds_parity', 'fault_xds_checksum', 'fault_xds_drop'],
  'components': {'real': ['src/vbi.c', 'src/packet.c', 'src/wss.c', 'src/caption.c', 'src/tables.c', 'src/network-table.h', 'src/packet-830.c',
@@ -66,6 +69,15 @@ FRAGMENT = {
                  'an 8/30 packet with an uncorrectable byte outside the fields an event is read from (initial page; format 2 for NETWORK / NETWORK_ID: a PDC byte that '
                  'carries no CNI bit) is undecided: a receiver may use or discard it, the debounce clause is evaluated over both readings; uncorrectable designation, or '
                  'an uncorrectable byte the event is read from (PROG_ID: any of the 13 PDC bytes): no event may come from the packet',
+                 'WSS "several identical repeats" are repeats of the station the announcement is made for: receptions before a NETWORK event by which the decoder '
+                 'reports that it left an identified station (other station, station revoked, assumed switch; vbi_channel_switched() documents that a switch resets the '
+                 'decoding context) do not count, at least three receptions since are demanded; a first identification is no such event, resets the model cannot '
+                 'observe (nobody listening to NETWORK, no station identified) leave the count alone',
+                 'Teletext header heuristic ("the decoder attempts to detect channel switches automatically"): a rolling header (pages 100-199, any page in serial '
+                 'mode) whose text differs from a rolling header received since the last decoder reset the model observed is evidence of another station: a blank '
+                 'NETWORK event (station no longer identified; not a network event of the change clause) from that page, the cache dropped, identifiers announced '
+                 'afresh and the page itself lost are accepted, silently when no station was identified; after the NETWORK event of a change between identified stations '
+                 'the headers seen before are forgotten, so the new station\'s pages are no such evidence (exactly one NETWORK event, its pages stay cached)',
                  'one event = its delivery to the lowest-numbered subscribed handler (which handlers receive it is C11); handler masks change between frames only',
                  'corrupted words never produce CNI 0 and never 0x0DC3 on 8/30-2; WSS subtitle code 11 (reserved) is not transmitted']}
 }
